@@ -3,10 +3,21 @@ import os
 # (comma separated). Selects the repaired entries of Model/Txn.lean (`shapeTable fixed`, `webhooksCtorOf fixed`) in
 # the driver; a selection that lags behind the tree is reported as a shape_fact/… or ctor_fact/… mismatch.
 TXN_FIXED = "webhooks,syncdb,settings,pin"
+# second engine: the `volumes` data-mode harness (real VolumeManager with the sector cache on real volume files) fails
+# Write/StoreSector in the database, in the callback and at the data file's WriteAt, then reads the root back through the
+# manager (cache first) and asks the store: monitors c09/failed_write_noop/{cache,read,old_data}. Same repaired-sites
+# list as C02/C08 (lib/props.d/C02.py VOLUMES_FIXES / VERIF_VOLUMES_FIXES).
+import re as _re
+_vm = _re.search(r'^VOLUMES_FIXES\s*=\s*"([^"]*)"', open(os.path.join(os.path.dirname(os.path.abspath(__file__)), "C02.py")).read(), _re.M)
+_volumes_fixes = (os.environ.get("VERIF_VOLUMES_FIXES") or (_vm.group(1) if _vm else "")).split()
 PROP = dict(
+    also=[dict(engine="volumes", harness="volumes", driver="drv_volumes", driver_args=_volumes_fixes, flag_filter=r"^c09/", corpus_filter=r"^c09_",
+               extra=dict(mode="data"), nontrivial=r"^(write|wbuf|storetemp|finish) .*res=err", min_ops=8, min_kinds=4,
+               shrink_budget=40, replay_timeout=120,
+               quick=dict(n=256, len=45, shards=8, timeout=300), thorough=dict(n=3200, len=60, shards=16, timeout=1700))],
     engine="txn", harness="txn", driver="drv_txn",
     driver_args=["--fixed=" + os.environ.get("VERIF_TXN_FIXED", TXN_FIXED), "--focus=c09/,shape,resume_twin,vop"],
-    props=["Hostd.Props.C09"],
+    props=["Hostd.Props.C09", "Hostd.Props.C09Volumes"],
     flag_filter=r"^c09/|^shape|^resume_twin|^vop",
     # n = histories (10 kinds in rotation: store sweeps, manager sweeps, chain resume, real volumes, batched loops),
     # len = swept operations per store/manager history
@@ -22,7 +33,7 @@ PROP = dict(
         "hgoal of single_tx_atomic (the value a manager writes into its copy is the view of what its statements stored) is C03/C04's subject; here it is a hypothesis",
         "H of resume_converges (applying the updates between two chain positions to the state of the first yields the state of the second) is C01/C16's subject",
     ],
-    level_text="Lean theorems over the step-list model of every exported mutating operation: for every shape beginTx stmt* commit (cacheWrite|memWrite)*, every statement semantics, database value and EVERY failure index, (db, mirror) are both unchanged or both updated, no transaction stays open and `mirror agrees with db` is preserved (single_tx_atomic, single_tx_agrees); the transcribed table of 52 operations passes the decidable shape check by kernel evaluation and inherits the theorem (shapeOK_codeShapes, codeShapes_atomic); the two manager methods that write their copy BEFORE the store call are proved not to have the property for any failing call (mem_first_not_atomic); batched loops end on a batch boundary and a retry converges (batched_prefix, batched_retry_converges); StoreSector releases the slot when the data write or sync fails (store_sector_rollback); an indexer batch moves state, marker and in-memory tip together (chain_batch_atomic) and any schedule of failed/killed batches and restarts that reaches the tip ends in the uninterrupted state (resume_converges). Batches that revert (reorgs; positions are names of chain indices, not heights) are covered by the same theorems (batch_with_reverts_moves_marker), with a counter-model of a marker that reverts-only batches do not write. Tied to the code by the fault sweep on the real store and managers. The real syncDB is also driven through reorgs (second chain manager, depth >= batch size for batch sizes 1, 2, 3) with the database files copied right after EVERY committed batch: the copy must hold exactly the state of a fresh host that indexed the chain ending in the marker of the copy, and a restarted indexer must converge to the twin. Overlapping budgets on one account: the commit of one fails while others are open, then rollback or retry of the same budget.",
+    level_text="Lean theorems over the step-list model of every exported mutating operation: for every shape beginTx stmt* commit (cacheWrite|memWrite)*, every statement semantics, database value and EVERY failure index, (db, mirror) are both unchanged or both updated, no transaction stays open and `mirror agrees with db` is preserved (single_tx_atomic, single_tx_agrees); the transcribed table of 52 operations passes the decidable shape check by kernel evaluation and inherits the theorem (shapeOK_codeShapes, codeShapes_atomic); the two manager methods that write their copy BEFORE the store call are proved not to have the property for any failing call (mem_first_not_atomic); batched loops end on a batch boundary and a retry converges (batched_prefix, batched_retry_converges); StoreSector releases the slot when the data write or sync fails (store_sector_rollback); an indexer batch moves state, marker and in-memory tip together (chain_batch_atomic) and any schedule of failed/killed batches and restarts that reaches the tip ends in the uninterrupted state (resume_converges). Batches that revert (reorgs; positions are names of chain indices, not heights) are covered by the same theorems (batch_with_reverts_moves_marker), with a counter-model of a marker that reverts-only batches do not write. Tied to the code by the fault sweep on the real store and managers. The real syncDB is also driven through reorgs (second chain manager, depth >= batch size for batch sizes 1, 2, 3) with the database files copied right after EVERY committed batch: the copy must hold exactly the state of a fresh host that indexed the chain ending in the marker of the copy, and a restarted indexer must converge to the twin. Overlapping budgets on one account: the commit of one fails while others are open, then rollback or retry of the same budget. Volumes unit (second engine): a failed Write/StoreSector (database, callback or data-write fault; new and already stored roots; cache on and off) is followed by ReadSector + SectorLocation: a root whose store failed is not served from the sector cache, a failed re-store leaves the old data readable; the model's failed finish leaves the cache unchanged (Props/C09Volumes: C09_failed_store_cache_keys, C09_failed_store_read_agrees, witness C09_cache_first_witness).",
     level_note="trusted: Lean kernel (+propext, Quot.sound), SQLite's atomic commit and WAL recovery, the transcription of the shapes (checked dynamically), the harness; partial: data-write/sync failures are modelled (store_sector_rollback) and driven only through StoreSector's callback returning an error, not through a faulting volume file (that is the volumes engine, C02)",
     assumptions=["deliberately batched maintenance loops (ExpireContractSectors, ExpireV2ContractSectors, ExpireTempSectors, PruneSectors, RemoveVolume, MigrateSectors) are checked per transaction plus convergence on retry (DESIGN §6.2)",
                  "single-fault quantifier: one injected failure per attempt (StoreSector's compensating transaction is not failed together with the data write)",
